@@ -1,0 +1,59 @@
+//go:build verif
+// +build verif
+
+package datastore
+
+import (
+	"fmt"
+	"sort"
+	"strings"
+
+)
+
+// Verification hook (build tag "verif" only): a canonical text dump of the repo manager's in-memory
+// state (DAG nodes, id maps, branch heads, counters).  Read-only; not compiled without the tag.
+func VerifManagerDump() string {
+	m := manager
+	if m == nil {
+		return "no-manager\n"
+	}
+	var lines []string
+	m.repoMutex.RLock()
+	seen := map[*repoT]bool{}
+	for u, r := range m.repos {
+		lines = append(lines, fmt.Sprintf("repos %q -> %q", u, r.uuid))
+		if seen[r] {
+			continue
+		}
+		seen[r] = true
+		r.RLock()
+		for v, n := range r.dag.nodes {
+			n.RLock()
+			lines = append(lines, fmt.Sprintf("node repo=%q v=%d uuid=%q parents=%v children=%v branch=%q locked=%v mapkey=%d",
+				r.uuid, n.version, n.uuid, n.parents, n.children, n.branch, n.locked, v))
+			n.RUnlock()
+		}
+		lines = append(lines, fmt.Sprintf("repo uuid=%q id=%d rootv=%d", r.uuid, r.id, r.version))
+		r.RUnlock()
+	}
+	m.repoMutex.RUnlock()
+	m.idMutex.RLock()
+	for v, u := range m.versionToUUID {
+		lines = append(lines, fmt.Sprintf("v2u %d %q", v, u))
+	}
+	for u, v := range m.uuidToVersion {
+		lines = append(lines, fmt.Sprintf("u2v %q %d", u, v))
+	}
+	for id, u := range m.repoToUUID {
+		lines = append(lines, fmt.Sprintf("repoid %d %q", id, u))
+	}
+	lines = append(lines, fmt.Sprintf("counters version=%d repo=%d instance=%d", m.versionID, m.repoID, m.instanceID))
+	m.idMutex.RUnlock()
+	m.branchMutex.RLock()
+	for k, u := range m.branchToUUID {
+		lines = append(lines, fmt.Sprintf("branch %q %q", k, u))
+	}
+	m.branchMutex.RUnlock()
+	sort.Strings(lines)
+	return strings.Join(lines, "\n") + "\n"
+}
